@@ -23,6 +23,9 @@ Decides (static, on type-checked MIR of every autocomplete configuration):
  T7b compdef         the zsh stub starts with the `#compdef` tag (compinit reads only the first line).
  T10 completers     Dir is never rendered like File (per mask case, table); the typed word is echoed as the only candidate only when neither an item
                        nor a completer was computed.
+ T11 operands      zsh: every placeholder of a `compadd` / `_files` line is the argument of an option letter or stands after `--` (a quoted word that
+                       starts with a dash is otherwise read as an option).
+ T12 untruncated   no format placeholder in the completion modules carries a precision (candidates and descriptions are never cut).
 Does not decide: that sourcing the text in a real shell has no other effect."""
 import re
 from core import *
@@ -36,7 +39,7 @@ ASSUMPTIONS = [
     'ShellComp::Raw strings and &\'static constants are supplied by the developer, not by the user at completion time',
     'shell semantics: text inside single quotes with \' -> \'\\\'\' is data for bash and zsh',
 ]
-FLOORS = {'T1.typed-quoting': 19, 'T2.newline': 23, 'T3.accumulator': 6, 'T4.coverage': 12, 'T5.escaper': 4, 'T6.dispatch': 5, 'T7.stubs': 8, 'T8.line-protocol': 2, 'T9.once': 4, 'T10.completers': 4}
+FLOORS = {'T1.typed-quoting': 19, 'T2.newline': 23, 'T3.accumulator': 6, 'T4.coverage': 12, 'T5.escaper': 4, 'T6.dispatch': 5, 'T7.stubs': 8, 'T8.line-protocol': 2, 'T9.once': 4, 'T10.completers': 4, 'T11.operands': 5, 'T12.untruncated': 1}
 
 RENDERERS = ['render_zsh', 'render_bash', 'render_fish', 'render_simple']
 INT_TYPES = {'usize', 'u8', 'u16', 'u32', 'u64', 'u128', 'isize', 'i8', 'i16', 'i32', 'i64', 'i128'}
@@ -77,8 +80,50 @@ def run(ctx):
         ctx.guard(t9, ctx, cfg, fs, bodies)
         ctx.guard(completer_table, ctx, cfg, fs, bodies)
         ctx.guard(t5_offsets, ctx, cfg, fs)
+        ctx.guard(t11_operands, ctx, cfg, fs, bodies)
+        ctx.guard(t12_untruncated, ctx, cfg, fs)
         import c14, c08
         ctx.guard(c08.keep_only, ctx, lambda: c14.no_late_none(ctx, cfg, fs), lambda o: True, 'T6.dispatch')
+
+def t11_operands(ctx, cfg, fs, bodies):
+    """zsh: a quoted word is still an OPTION for `compadd` / `_files` when it starts with a dash, unless it stands after the `--` that
+    ends the options or is the argument of an option letter.  Every placeholder of a template that starts with one of these
+    builtins is in one of those two positions."""
+    for body in fs.family(bodies['render_zsh']):
+        for s in fmt_sites(body):
+            text = s.text()
+            if not re.match(r'(compadd|_files)\b', text):
+                continue
+            before = ''
+            bad = []
+            for pc in s.pieces:
+                if pc[0] == 'lit':
+                    before += pc[1]
+                else:
+                    if not (' -- ' in before or re.search(r' -[A-Za-z] $', before)):
+                        bad.append('argument %d' % pc[1])
+                    before += '{}'
+            if '{}' in text:
+                ctx.ob('T11.operands', '%s:%s' % (body.path, text.strip()[:50]), not bad,
+                       '%s: template %r: %s' % (body.path, text, ('%s would be read as an option when the text starts with a dash' % ', '.join(bad)) if bad else 'every placeholder is an option argument or follows `--`'),
+                       where=s.where(), cfg=cfg)
+
+def t12_untruncated(ctx, cfg, fs):
+    """a candidate (and its description) reaches the shell whole: no format placeholder in the completion modules carries a precision
+    (`{:.N}` truncates the text to N characters - padding with a width is harmless)."""
+    n = 0
+    for path, raw in sorted(fs.bodies.items()):
+        if not re.match(r'^(complete_shell|complete_gen)::|^<complete_(shell|gen)::', path):
+            continue
+        body = raw
+        for s in fmt_sites(body):
+            for pc in s.pieces:
+                if pc[0] == 'arg':
+                    n += 1
+                    if len(pc) > 4 and pc[4] is not None:
+                        ctx.ob('T12.untruncated', '%s:%s' % (path, s.text().strip()[:50]), False,
+                               '%s: template %r cuts argument %d to %s characters' % (path, s.text(), pc[1], pc[4]), where=s.where(), cfg=cfg)
+    ctx.ob('T12.untruncated', 'completion-modules:no-precision', n >= 20, '%d placeholders in complete_shell / complete_gen examined; none may carry a precision' % n, cfg=cfg)
 
 def t5_offsets(ctx, cfg, fs):
     """the quoting wrapper and the renderers cut strings only at byte offsets (char_indices/len/find), never at a
